@@ -173,7 +173,7 @@ def run_mono(case):
         cls = [float(CL(n, sigma=s).cl) for s in ss]
     refs = [ref_cl(n, s) for s in ss]
     for (s0, c0, r0), (s1, c1, r1) in zip(zip(ss, cls, refs), zip(ss[1:], cls[1:], refs[1:])):
-        if c1 < c0:
+        if c1 < c0 - 4 * np.spacing(c0):  # monotone up to the last bits of the incomplete gamma function (scipy)
             raise Violation("monotone-cl", f"n={n}: cl({s1})={c1!r} < cl({s0})={c0!r}")
         if r1 - r0 > 1e-13 and not c1 > c0:
             raise Violation("strictly-monotone-cl", f"n={n}: cl({s1})={c1!r} !> cl({s0})={c0!r}")
